@@ -1331,3 +1331,126 @@ func c20r13(rc *core.RC) {
 		rc.Unknown(name+"/scalar-clauses", fd.Pos(), "found %d clauses for values that are neither objects nor arrays (confirmed: 5)", n)
 	}
 }
+
+// ---- C20.R14 the value begins behind the colon that was tested ----
+
+// Between a member name and its value stand optional white space, the colon, optional white space. The object
+// walkers of the decoder skip the white space, compare the byte under the cursor with ':' and step over it: the
+// cursor that goes on to the value is the one the colon was found under, plus one. A value position computed from the
+// end of the key instead (keyCursor + 1) is the same number only when the colon follows the key directly:
+// `"name" : value` sends the decoder into the white space or the colon. Obligation: the statement that follows each
+// test of a byte against ':' (an if that leaves with an error) advances the cursor of that test by one.
+func c20r14(rc *core.RC) {
+	p := rc.P
+	pk := p.Pkg("decoder")
+	if pk == nil {
+		rc.Unknown("decoder", token.NoPos, "package not found")
+		return
+	}
+	info := pk.TypesInfo
+	n := 0
+	for _, fd := range p.Funcs("decoder") {
+		if fd.Body == nil {
+			continue
+		}
+		name := p.FuncName(fd)
+		k := 0
+		ast.Inspect(fd.Body, func(m ast.Node) bool {
+			ifs, ok := m.(*ast.IfStmt)
+			if !ok || ifs.Else != nil || len(ifs.Body.List) == 0 {
+				return true
+			}
+			if _, isRet := ifs.Body.List[len(ifs.Body.List)-1].(*ast.ReturnStmt); !isRet {
+				return true
+			}
+			be, ok := core.Unparen(ifs.Cond).(*ast.BinaryExpr)
+			if !ok || be.Op != token.NEQ {
+				return true
+			}
+			if v, isC := core.ConstInt(info, be.Y); !isC || v != ':' {
+				return true
+			}
+			// the cursor the byte was read under: buf[X], char(p, X), or the stream's own (s.skipWhiteSpace(), s.char())
+			cur := ""
+			switch x := core.Unparen(be.X).(type) {
+			case *ast.IndexExpr:
+				cur = types.ExprString(core.Unparen(x.Index))
+			case *ast.CallExpr:
+				cn := core.CalleeName(info, x)
+				switch {
+				case cn == "decoder.char" && len(x.Args) == 2:
+					cur = types.ExprString(core.Unparen(x.Args[1]))
+				case strings.HasPrefix(cn, "decoder.Stream.") && len(x.Args) == 0:
+					if sel, ok := x.Fun.(*ast.SelectorExpr); ok {
+						cur = types.ExprString(sel.X) + ".cursor"
+					}
+				}
+			}
+			if cur == "" {
+				return true
+			}
+			k++
+			n++
+			rc.Touch(name)
+			// the statement that follows the test: the next one in its block, or behind the statement that holds it
+			var next ast.Stmt
+			path := core.PathTo(fd.Body, ifs)
+			child := ast.Node(ifs)
+			for i := len(path) - 2; i >= 0 && next == nil; i-- {
+				var list []ast.Stmt
+				switch b := path[i].(type) {
+				case *ast.BlockStmt:
+					list = b.List
+				case *ast.CaseClause:
+					list = b.Body
+				default:
+					child = path[i]
+					continue
+				}
+				for j, st := range list {
+					if ast.Node(st) == child && j+1 < len(list) {
+						next = list[j+1]
+					}
+				}
+				if i > 0 {
+					if _, isLoop := path[i-1].(*ast.ForStmt); isLoop && next == nil {
+						break
+					}
+				}
+				child = path[i]
+			}
+			advanced := false
+			switch st := next.(type) {
+			case *ast.IncDecStmt:
+				advanced = st.Tok == token.INC && types.ExprString(core.Unparen(st.X)) == cur
+			case *ast.AssignStmt:
+				if len(st.Lhs) == 1 && len(st.Rhs) == 1 && types.ExprString(core.Unparen(st.Lhs[0])) == cur {
+					le := &core.LinearEval{Info: info, Pkg: pk, Body: fd.Body}
+					switch st.Tok {
+					case token.ADD_ASSIGN:
+						v, isC := core.ConstInt(info, st.Rhs[0])
+						advanced = isC && v == 1
+					case token.ASSIGN:
+						if be2, ok := core.Unparen(st.Rhs[0]).(*ast.BinaryExpr); ok && be2.Op == token.ADD {
+							l := le.Eval(be2)
+							_ = l
+							if types.ExprString(core.Unparen(be2.X)) == cur {
+								v, isC := core.ConstInt(info, be2.Y)
+								advanced = isC && v == 1
+							}
+						}
+					}
+				}
+			}
+			what := "nothing"
+			if next != nil {
+				what = "`" + core.Src(p.Fset, next) + "`"
+			}
+			rc.Check(advanced, fmt.Sprintf("%s/colon-test#%d value-begins-behind-it", name, k), ifs.Pos(), "the byte under %s is compared with ':'; what follows the test is %s, which has to step %s over the colon: a value position taken from somewhere else (the end of the key) is right only when the colon follows the key directly, and `\"name\" : value` is decoded from the white space or the colon", cur, what, cur)
+			return true
+		})
+	}
+	if n < 4 {
+		rc.Unknown("decoder/colon-tests", token.NoPos, "found %d tests of a byte against ':' that leave with an error (confirmed: 4)", n)
+	}
+}
